@@ -83,8 +83,11 @@ fn main() {
         return;
     }
 
-    let fen = matches.value_of("fen").unwrap_or(board::DEFAULT_FEN_STRING);
-    let board = match board::BoardState::from_fen(fen) {
+    // value_of panics on an argument that is not valid UTF-8, let from_fen reject it instead
+    let fen = matches
+        .value_of_lossy("fen")
+        .unwrap_or_else(|| board::DEFAULT_FEN_STRING.into());
+    let board = match board::BoardState::from_fen(&fen) {
         Ok(b) => b,
         Err(err) => {
             println!("{}", err);
